@@ -87,13 +87,21 @@ Theorem C11_rtu_fifo_fixed :
 Proof. exact rtu_fifo_size_fixed_witness. Qed.
 Print Assumptions C11_rtu_fifo_fixed.
 
-(* RTU, responses: still refuted - with a high byte of 0xFF the oracle asks for 65 541 bytes, far more
-   than two maximum frames (finding F-C11-rtu-fifo-extent: a FIFO response never exceeds 70 bytes) *)
+(* RTU, responses: still refuted (finding F-C11-rtu-fifo-extent) - the 16-bit FIFO byte count is taken at
+   face value.  A conformant Read FIFO Queue response has byte count <= 2 + 2 * 31 = 64 (frame <= 70
+   bytes); a header '.. 18 hi lo' with a larger count makes the receiver wait for hi * 256 + lo + 6 bytes
+   (477 for 01 D7, 65 541 for FF FF) - more than the two maximum frames C11 allows as soon as it exceeds
+   512 - and when the extent is reached the CRC fails and every complete valid frame buffered behind the
+   garbage is dropped with it: of 70 valid 7-byte frames sent one per read behind "11 18 01 D7" only the
+   last 2 are delivered *)
 Theorem C11_rtu_fifo_extent_refuted :
   let f := spec_adu_rtu 1 [3; 2; 0; 7] in
+  frame_size (lookup_rule client_decoder 24) [17; 24; 0; 64] = Ok 70%Z /\
+  frame_size (lookup_rule client_decoder 24) [17; 24; 1; 215] = Ok 477%Z /\
   frame_size (lookup_rule client_decoder 24) [1; 24; 255; 255] = Ok 65541%Z /\
   deliveries (rtu_feed cfg_client rtu_init [[1; 24; 255; 255]; f; f; f; f]) = [] /\
-  length (r_buf (fst (fst (rtu_feed cfg_client rtu_init [[1; 24; 255; 255]; f; f; f; f])))) = 32%nat.
+  length (r_buf (fst (fst (rtu_feed cfg_client rtu_init [[1; 24; 255; 255]; f; f; f; f])))) = 32%nat /\
+  deliveries (rtu_feed cfg_client rtu_init ([17; 24; 1; 215] :: repeat f 70)) = repeat ([3; 2; 0; 7], 1%Z) 2.
 Proof. exact rtu_fifo_extent_witness. Qed.
 Print Assumptions C11_rtu_fifo_extent_refuted.
 
